@@ -57,7 +57,8 @@ func (sp *multiPrintWriter) GetWriter(node *CandidateNode) (*bufio.Writer, error
 
 	indexVariableNode := CandidateNode{Kind: ScalarNode, Tag: "!!int", Value: fmt.Sprintf("%v", sp.index)}
 
-	context := Context{MatchingNodes: node.AsList()}
+	// the name expression only reads the result that is about to be written
+	context := Context{MatchingNodes: node.AsList(), DontAutoCreate: true}
 	context.SetVariable("index", indexVariableNode.AsList())
 	result, err := sp.treeNavigator.GetMatchingNodes(context, sp.nameExpression)
 	if err != nil {
